@@ -93,13 +93,6 @@ def run_sequences(ctx, res, prop, seqs, label, strace=False, extra_fds=()):
         apply_verdict(res, prop, out, known, counters)
         if prop in ("C04", "ALL") or True:
             fb = F.check_files(out)
-            if out.get("lost_builtin_text") and prop == "C04":
-                if "captured-builtin-target-ignored" in known:
-                    res.known("captured-builtin-target-ignored", "class=captured-builtin-target-ignored what=%s observed=file %s lacks the text of the captured builtin: %s" % (
-                        known["captured-builtin-target-ignored"].get("what", "")[:90], out["lost_builtin_text"][0],
-                        out["line"][:200].replace(os.path.join(ctx.helpers, "hp"), "hp")))
-                else:
-                    fb = fb + [(nm, "text of the builtin", "missing") for nm in out["lost_builtin_text"]]
             res.extra["files_compared"] = res.extra.get("files_compared", 0) + len(out.get("files_full", {}))
             if fb and prop == "C04":
                 if counters["viol"] < 4:
@@ -276,7 +269,10 @@ def builtin_truncate_seqs(ctx):
     opened, with PRE-EXISTING NON-EMPTY target files; the final content of every target is compared (the earlier targets of a
     failing list are truncated / created, `>>` keeps the content, nothing after the failing target is touched)."""
     shapes = [["1t5"], ["2t5"], ["1a5"], ["1t5", "1t31", "1t6"], ["1t5", "2t33", "1a6"], ["1a5", "1t6", "2t30"],
-              ["1t5", "1t6"], ["2t5", "1t31"], ["1t5", "2&1", "1t32", "1t6"]]
+              ["1t5", "1t6"], ["2t5", "1t31"], ["1t5", "2&1", "1t32", "1t6"],
+              # left to right, once: the duplication sees the target AS IT STANDS (a second application in the forked child
+              # of a captured builtin would send the diagnostic of `2>&1 > f` into f, the text of `1>&2 2> g` into g)
+              ["2&1", "1t5"], ["1&2", "2t6"], ["1t5", "2&1"], ["2&1", "1a5"]]
     seqs = []
     for b in ("alias zq=2", "cd .", "alias", "alias zz_none"):
         for cap in (False, True):
@@ -285,4 +281,23 @@ def builtin_truncate_seqs(ctx):
                 step = S([F.mk_stage("B", redirs=rs, prints=F.BUILTINS[b][0], builtin=b)], cap=cap, unop=unop)
                 step["present"] = {5, 6}
                 seqs.append([PRELUDE(), step])
+    return seqs
+
+
+def builtin_empty_text_seqs(ctx):
+    """print_stdout with an EMPTY text (`alias` while no alias is defined): the descriptor obtained for the print -- dup(1) or the
+    redirection target -- must be closed on that path too; every step is followed by minfd and the inheritance probe."""
+    seqs = []
+    texts = dict(F.TEXTS)
+    texts["alias"] = (b"", b"")
+    for cap in (False, True):
+        steps = []
+        for rs in ([], ["1t5"], ["2&1", "1a5"], ["1&2"], ["1a6", "2t5"], []):
+            if cap and rs:
+                continue
+            st = S([F.mk_stage("B", redirs=rs, prints="O", builtin="alias")], cap=cap)
+            st["texts"] = texts
+            st["present"] = {5}
+            steps.append(st)
+        seqs.append(steps)
     return seqs
